@@ -824,10 +824,11 @@ impl C08Onchain {
                     co.tags.insert("accepted:beneficial>inputs".into());
                 }
                 // fee velocity
-                let (limit, wlen) = {
-                    let s = node.get_state();
-                    let v = &s.fee_velocity_control;
-                    (v.limit, (v.buckets.len() as u64 - 1) * v.bucket_interval as u64)
+                // limit and window from the CONFIGURED policy spec, not from the node's control (which a defect may have replaced)
+                let (limit, wlen): (u64, u64) = match env.spec.interval_type {
+                    VelocityControlIntervalType::Hourly => (env.spec.limit_msat, 11 * 300),
+                    VelocityControlIntervalType::Daily => (env.spec.limit_msat, 23 * 3600),
+                    VelocityControlIntervalType::Unlimited => (u64::MAX, 0),
                 };
                 let msat = (nb * 1000).min(u64::MAX as u128) as u64;
                 if passed_ok {
@@ -947,7 +948,13 @@ fn gen_tx(rng: &mut Rng, cfg: &Cfg, now: u64) -> TxSpec {
             let path = if rng.chance(1, 15) { vec![1] } else { vec![] };
             OutSpec { desc: d, path, value }
         } else if k == 18 {
-            OutSpec { desc: Desc::R(if rng.chance(1, 4) { 33_000 } else { *rng.pick(&[3usize, 40]) }), path: vec![], value }
+            if rng.chance(1, 3) {
+                // the allowlisted xpub's own key (empty derivation path): only derivable with a non-empty path
+                let j = if !cfg.xpubs.is_empty() { *rng.pick(&cfg.xpubs[..]) } else { 1 };
+                if j == OWN_XPUB { OutSpec { desc: Desc::F(3, 'w'), path: vec![], value } } else { OutSpec { desc: Desc::X(j, vec![], *rng.pick(&['w', 'k', 't'])), path: vec![], value } }
+            } else {
+                OutSpec { desc: Desc::R(if rng.chance(1, 3) { 33_000 } else { *rng.pick(&[3usize, 40]) }), path: vec![], value }
+            }
         } else {
             OutSpec { desc: Desc::F(rng.below(5) as u32, 'w'), path: vec![], value }
         };
@@ -966,6 +973,17 @@ fn gen_tx(rng: &mut Rng, cfg: &Cfg, now: u64) -> TxSpec {
         chans,
         outs,
     };
+    // an oversized script: aim the base size at MAX_ONCHAIN_TX_SIZE - 1 / exactly / + 1
+    if let Some(k) = spec.outs.iter().position(|o| matches!(o.desc, Desc::R(n) if n > 30_000)) {
+        let target = 32 * 1024 + rng.below(3) as usize - 1;
+        for _ in 0..3 {
+            let base = spec.dummy_tx().base_size();
+            if let Desc::R(n) = spec.outs[k].desc {
+                let want = (n + target).saturating_sub(base);
+                spec.outs[k].desc = Desc::R(want.max(1));
+            }
+        }
+    }
     if rng.chance(1, 25) { spec.segwit.pop(); }
     if rng.chance(1, 40) { spec.uck.push(None); }
     if rng.chance(1, 40) && n_out > 0 { spec.n_opaths = n_out - 1; }
@@ -987,7 +1005,7 @@ fn gen_tx(rng: &mut Rng, cfg: &Cfg, now: u64) -> TxSpec {
     }
     let mf = cfg.max_feerate as u128;
     let nb_edge = (mf * w) / 1000;
-    let nb: u128 = match rng.below(12) {
+    let nb: u128 = match rng.below(13) {
         0 => 0,
         1 => nb_edge,
         2 => nb_edge + 1,
@@ -998,6 +1016,8 @@ fn gen_tx(rng: &mut Rng, cfg: &Cfg, now: u64) -> TxSpec {
         6 => (4_294_967_296u128 * w + 999) / 1000 + rng.below(50) as u128,
         7 => 25_8000_0000u128 + rng.below(1000) as u128,
         8 => u64::MAX as u128 / 1000 + rng.below(3) as u128,
+        // the input sum passes 2^64 by a small amount: a wrapping sum would look like a tiny fee
+        9 if n_in >= 2 => (1u128 << 64) + rng.below((nb_edge + 2) as u64) as u128,
         _ => rng.below((nb_edge + 2) as u64) as u128,
     };
     let mut total = (ben + nb).min(u64::MAX as u128 * n_in as u128);
